@@ -34,7 +34,7 @@ FILLS_QUICK = [0x00, 0x06, 0x07, 0x0c, 0xff]
 FILLS_ALL = [0x00, 0xbe, 0x06, 0x07, 0x0c, 0x20, 0x22, 0x5c, 0xff]
 
 PROPS = {}
-PROPS["_libs"] = {}
+PROPS["_libs"] = {"number_harness.cpp": "-lgmp"}
 
 # ------------------------------------------------------------------------------------------------ C01
 PROPS["C01"] = dict(
@@ -102,4 +102,27 @@ PROPS["C03"] = dict(
     ],
     require=["accepted", "valid_doc_x_pad", "sizes_and_last_child", "long_whitespace", "deep"],
     assumptions=["reference parser value construction (strtod for non-integers, exact decimal comparison for integer kinds)"],
+)
+
+# ------------------------------------------------------------------------------------------------ C04
+PROPS["C04"] = dict(
+    title="Numbers parse to the exact integer or the correctly rounded double",
+    rule=("number spellings by family: integers around 10^k/2^63/2^64; random and boundary doubles printed with 0..24 digits, %f, "
+          "shortest; exact halfway points between adjacent doubles (from the exact long-double decimal expansion) and just-off-halfway; "
+          "decimals just below/at/above every power of two 2^-1074..2^1023; every decimal exponent -400..400 x mantissas of 1..19 and "
+          "20..40 digits; >19-digit integer parts followed by an exponent; zero spellings with up to 2000 zeros and huge negative "
+          "exponents; 100..2000-digit mantissas; exponent-accumulator edges; the overflow threshold 2^1024-2^970 in all spellings; "
+          "each number placed as root (EOF-terminated), array element, object value; oracle = exact decimal comparison for integer "
+          "kinds, glibc strtod bits for doubles, strtod=inf <=> rejected with kParseErrorInfinity; plus a GMP audit of all 697 rows "
+          "of kPow10M128Tab, kPow10Tab and the 61 LSHIFT_TAB rows; distinct = hash of the number spelling"),
+    runs=[
+        dict(name="prod-hsw", src="number_harness.cpp", cfg="prod-hsw", env={}, args=["--scale", "10"]),
+        dict(name="asan-hsw", src="number_harness.cpp", cfg="asan-hsw", env=ASAN_ENV),
+        dict(name="prod-wsm", src="number_harness.cpp", cfg="prod-wsm", env={}, tiers=("thorough",)),
+    ],
+    require=["expected:integer-kind", "expected:double", "expected:overflow-rejected", "expected:subnormal", "expected:zero-double",
+             "audit:pow10m128-row-exact-floor", "audit:lshift-rows", "context:root(EOF-terminated)", "halfway", "every_table_row",
+             "overflow_threshold", "near_power_of_two"],
+    assumptions=["glibc strtod is correctly rounded (cross-checked against libstdc++ from_chars in stream oracle_selftest)",
+                 "GMP integer arithmetic for the table audit"],
 )
